@@ -626,6 +626,15 @@ impl Check for C05 {
         let mut out = Outcome::default();
         out.evals = 1;
         let detail = json!({"env": case.env, "a": case.a, "b": case.b});
+        // the decision procedure is exponential in the number of object types that meet in unions (a dozen members take
+        // seconds, two dozen minutes): such pairs say nothing about correctness and would turn a time budget into a verdict,
+        // so they are left out by construction and counted
+        let weight = object_weight(&case.env, &case.a, 6) + object_weight(&case.env, &case.b, 6);
+        if weight > 18 {
+            out.excluded.push(("oversized_pair".to_string(), 1));
+            out.label("excluded_oversized_pair");
+            return out;
+        }
         let req = json!({"sem":"subtype","env":case.env,"a":case.a,"b":case.b});
         let first = ctx.compiler.sem(req.clone(), if ctx.shrinking { 3 } else { 10 });
         // the request makes four decisions (a<=b, b<=a, same, and a<=b again in a fresh context).  A time budget hit is
@@ -980,6 +989,12 @@ impl Check for C06 {
             C06Case::Operands { env, x, y, values } => {
                 out.label("layer:operands");
                 let detail = json!({"env": env, "x": x, "y": y});
+                if object_weight(&env, &x, 6) + object_weight(&env, &y, 6) > 18 {
+                    // exponential in the number of object types (see C05): left out by construction
+                    out.excluded.push(("oversized_pair".to_string(), 1));
+                    out.label("excluded_oversized_pair");
+                    return out;
+                }
                 let ans = match ctx.compiler.sem(json!({"sem":"setops","env":env,"x":x,"y":y,"values":values}), if ctx.shrinking { 3 } else { 10 }) {
                     Ok(v) => v,
                     Err(CompileFail::Timeout) => {
@@ -1142,6 +1157,18 @@ pub fn structural_meet(env: &Env, x: &D, y: &D, fuel: usize) -> D {
         (_, D::Union(ms)) => D::Union(ms.iter().map(|m| structural_meet(env, x, m, fuel - 1)).collect()),
         (a, b) if a == b => a.clone(),
         _ => D::Inter(vec![x.clone(), y.clone()]),
+    }
+}
+
+/// number of object types (with multiplicity through references) that a decision about `d` has to look at
+pub fn object_weight(env: &Env, d: &D, fuel: usize) -> usize {
+    if fuel == 0 {
+        return 1;
+    }
+    match d {
+        D::Ref(i) => object_weight(env, env.get(*i), fuel - 1),
+        D::Object { props, index } => 1 + props.iter().map(|p| object_weight(env, &p.ty, fuel - 1)).sum::<usize>() + index.as_ref().map(|x| object_weight(env, x, fuel - 1)).unwrap_or(0),
+        other => other.children().iter().map(|c| object_weight(env, c, fuel - 1)).sum(),
     }
 }
 
